@@ -14,6 +14,7 @@ pub fn dispatch(op: &str, _args: &[String]) -> bool {
     match op {
         "layer-trace" => run_batch(op_layer_trace),
         "c14-iso" => run_batch(op_iso),
+        "c14-drawpix" => run_batch(op_drawpix),
         _ => return false,
     }
     true
@@ -575,4 +576,88 @@ fn op_iso(payload: &str) -> String {
     }
     out.push('}');
     out
+}
+
+// ------------------------------------------------------------------------------------------------
+/// c14-drawpix  payload `<d>`: the layer composite of render_group on bytes.  A 256 x 256 "layer", pixel (x = s, y = sa) =
+/// (min(s,sa) x3, sa), is drawn with the paint render_group builds for an opacity-1 normal-blend group
+/// (`PixmapPaint { opacity: 1.0, blend_mode: convert_blend_mode(Normal), quality: Nearest }`, identity transform) at the
+/// integer position (1, 2) onto a 258 x 260 destination filled with (d, d, d, d).  Returns the red and the alpha channel of
+/// the covered area (index sa * 256 + s), whether r = g = b everywhere, and whether the uncovered frame stayed untouched.
+fn op_drawpix(payload: &str) -> String {
+    if let Some(rest) = payload.trim().strip_prefix("seq:") {
+        return drawpix_seq(rest);
+    }
+    let d: u8 = match payload.trim().parse() {
+        Ok(v) => v,
+        Err(_) => return "{\"error\":\"bad payload\"}".into(),
+    };
+    let mut src = tiny_skia::Pixmap::new(256, 256).unwrap();
+    for sa in 0..256usize {
+        for s in 0..256usize {
+            let o = (sa * 256 + s) * 4;
+            let m = s.min(sa) as u8;
+            src.data_mut()[o..o + 4].copy_from_slice(&[m, m, m, sa as u8]);
+        }
+    }
+    let (w, h) = (258usize, 260usize);
+    let mut dst = tiny_skia::Pixmap::new(w as u32, h as u32).unwrap();
+    for p in dst.data_mut().chunks_exact_mut(4) {
+        p.copy_from_slice(&[d, d, d, d]);
+    }
+    let paint = tiny_skia::PixmapPaint {
+        opacity: 1.0,
+        blend_mode: resvg::verif_hooks::convert_blend_mode(usvg::BlendMode::Normal),
+        quality: tiny_skia::FilterQuality::Nearest,
+    };
+    dst.draw_pixmap(1, 2, src.as_ref(), &paint, tiny_skia::Transform::identity(), None);
+    let data = dst.data();
+    let mut t = Vec::with_capacity(65536);
+    let mut ta = Vec::with_capacity(65536);
+    let mut uniform = true;
+    let mut frame_ok = true;
+    for y in 0..h {
+        for x in 0..w {
+            let p = &data[(y * w + x) * 4..(y * w + x) * 4 + 4];
+            if x >= 1 && x < 257 && y >= 2 && y < 258 {
+                t.push(p[0].to_string());
+                ta.push(p[3].to_string());
+                uniform &= p[0] == p[1] && p[1] == p[2];
+            } else {
+                frame_ok &= p == [d, d, d, d];
+            }
+        }
+    }
+    format!("{{\"t\":[{}],\"ta\":[{}],\"uniform\":{},\"frame_ok\":{}}}", t.join(","), ta.join(","), uniform, frame_ok)
+}
+
+/// c14-drawpix payload `seq:r,g,b,a;r,g,b,a;...` (first pixel = background, the others = children in paint order, all
+/// premultiplied bytes): the children composited one by one onto the background (`direct`) and onto a clear layer that is
+/// then composited onto the background (`layered`), every step by the real draw_pixmap with render_group's layer paint.
+fn drawpix_seq(spec: &str) -> String {
+    let px: Vec<Vec<u8>> = spec.split(';').map(|p| p.split(',').filter_map(|x| x.trim().parse().ok()).collect()).collect();
+    if px.len() < 2 || px.iter().any(|p| p.len() != 4) {
+        return "{\"error\":\"bad seq\"}".into();
+    }
+    let paint = tiny_skia::PixmapPaint {
+        opacity: 1.0,
+        blend_mode: resvg::verif_hooks::convert_blend_mode(usvg::BlendMode::Normal),
+        quality: tiny_skia::FilterQuality::Nearest,
+    };
+    let one = |p: &[u8]| {
+        let mut pm = tiny_skia::Pixmap::new(1, 1).unwrap();
+        pm.data_mut().copy_from_slice(p);
+        pm
+    };
+    let mut direct = one(&px[0]);
+    let mut layer = tiny_skia::Pixmap::new(1, 1).unwrap();
+    for p in &px[1..] {
+        let c = one(p);
+        direct.draw_pixmap(0, 0, c.as_ref(), &paint, tiny_skia::Transform::identity(), None);
+        layer.draw_pixmap(0, 0, c.as_ref(), &paint, tiny_skia::Transform::identity(), None);
+    }
+    let mut layered = one(&px[0]);
+    layered.draw_pixmap(0, 0, layer.as_ref(), &paint, tiny_skia::Transform::identity(), None);
+    let f = |pm: &tiny_skia::Pixmap| pm.data().iter().map(|x| x.to_string()).collect::<Vec<_>>().join(",");
+    format!("{{\"direct\":[{}],\"layered\":[{}]}}", f(&direct), f(&layered))
 }
